@@ -225,6 +225,52 @@ pub fn c15_histories(tier: Tier) -> Vec<Vec<Op>> {
             enumerate(&kn, tier.pick(12, 14), &p, &prefix, &mut out);
         }
     }
+    // illegal submissions in the MIDDLE of a history (they must not disturb the counting that
+    // follows): every knight-shuffle history of depth 12 (thorough 14) with one or two illegal
+    // moves inserted at every position
+    {
+        let mut base = vec![];
+        enumerate(&knights, tier.pick(12, 14), &start, &[], &mut base);
+        let illegal = [mv("e2e5"), mv("e1e2"), mv("g1g3")];
+        for h in &base {
+            let legal_len = h.iter().take_while(|o| matches!(o, Op::Move(m) if knights.contains(m))).count().min(tier.pick(12, 14));
+            for p in 0..=legal_len {
+                for reps in 1..=2usize {
+                    let mut g: Vec<Op> = h[..p].to_vec();
+                    for r in 0..reps {
+                        g.push(Op::Move(illegal[(p + r) % illegal.len()]));
+                    }
+                    g.extend_from_slice(&h[p..legal_len]);
+                    out.push(g);
+                }
+            }
+        }
+    }
+    // every legal move (reference) to depth 2 from every catalogue root installed with set_board:
+    // promotions (all four pieces), en passant, castling through the stable move encoding
+    {
+        let (roots, _) = crate::roots::all_roots();
+        for r in roots.iter() {
+            if r.name.starts_with("perft0") || r.name.starts_with("perft27") {
+                continue;
+            }
+            let fen = r.pos.to_fen();
+            if parse_board(&fen).is_err() {
+                continue;
+            }
+            for m1 in r.pos.legal_moves() {
+                let p1 = r.pos.make(m1);
+                let l2 = p1.legal_moves();
+                if l2.is_empty() || tier == Tier::Quick && !(m1.promo.is_some() || crate::oracles::is_special(&r.pos, m1)) {
+                    out.push(vec![Op::SetBoard(fen.clone()), Op::Move(m1)]);
+                    continue;
+                }
+                for m2 in l2 {
+                    out.push(vec![Op::SetBoard(fen.clone()), Op::Move(m1), Op::Move(m2)]);
+                }
+            }
+        }
+    }
     // evaluate interleaved: a proposal must be legal and must not disturb board or counting
     let mut with_eval = vec![];
     for (i, h) in out.iter().enumerate() {
@@ -273,7 +319,7 @@ pub fn run_c15(args: &crate::Args) -> i32 {
             "traces_validated_against_impl": hs.len(),
             "evaluations": hs.len(),
             "distinct_nontrivial": with_flag,
-            "rule": "every maximal history over three move alphabets from a fresh plugin engine (knight shuffles to depth 16/20 so positions must recur; knights + rook h1-g1-h1 / h8-g8-h8 to depth 12/14 so placements recur with different castling rights; a rich alphabet with double steps, capture and castling to depth 6/7), every alphabet move that is illegal at a leaf submitted there, set_board of three boards before and after shuffling followed by shuffles to depth 12/14, and a strided subset re-run with evaluate calls interleaved. Each step is checked against the reference board and an occurrence counter that counts the installed position. states/transitions = plugin calls checked; non-trivial = histories in which a third occurrence is reached.",
+            "rule": "every maximal history over three move alphabets from a fresh plugin engine (knight shuffles to depth 16/20 so positions must recur; knights + rook h1-g1-h1 / h8-g8-h8 to depth 12/14 so placements recur with different castling rights; a rich alphabet with double steps, capture and castling to depth 6/7), every alphabet move that is illegal at a leaf submitted there, set_board of three boards before and after shuffling followed by shuffles to depth 12/14, and every knight-shuffle history of depth 12/14 with one or two illegal submissions inserted at every position; set_board of every catalogue root followed by every legal move sequence of length <= 2 (promotions, en passant, castling through the stable move encoding); a strided subset re-run with evaluate calls interleaved. Each step is checked against the reference board and an occurrence counter that counts the installed position. states/transitions = plugin calls checked; non-trivial = histories in which a third occurrence is reached.",
             "histories": hs.len(),
             "third_occurrences_reached": flags,
             "exhaustive": true,
